@@ -7,9 +7,15 @@
      step_faults_only_bad_oracle : under pid_honest_run (ProtoRouted) and a schedule without
        XResume, every Fault of run (init nw) sigma is BadOracle — i.e. neither Worker::step nor
        Environment::step ever returns Err; the remaining Faults of the model say that the oracle
-       does not describe a possible slice / iteration order, not that the code fails. *)
+       does not describe a possible slice / iteration order, not that the code fails.
+     step_faults_only_bad_oracle_resume : the same when the client DOES resume, honestly
+       (`resume_honest_run`, a premise on the state in which resume_process is called): the process is
+       routed, it is sleeping on its worker (finished Ok, persistent, awaiting nothing) or its
+       StartProcess(sleeping) command is queued there, and no ResumeProcess for it is queued already.
+       A sleeping process stays sleeping under every worker operation but its own resume
+       (ProtoSleep.v), so the queued ResumeProcess finds it sleeping. *)
 From Quiver Require Import sys.Proto sys.ProtoMsg sys.ProtoFifo sys.ProtoFail sys.ProtoWake sys.ProtoDeliver sys.ProtoWf
-  sys.ProtoErrs sys.ProtoCommute sys.ProtoMicro sys.ProtoMicroWf sys.ProtoOps sys.ProtoRouted sys.ProtoAwait sys.ProtoAwaitInv.
+  sys.ProtoErrs sys.ProtoCommute sys.ProtoMicro sys.ProtoMicroWf sys.ProtoOps sys.ProtoRouted sys.ProtoAwait sys.ProtoAwaitInv sys.ProtoSleep.
 
 (* every GetResult in the queue finds its process: it exists (H) or is spawned by an earlier command *)
 Fixpoint gr_ok (H : pid -> Prop) (cs : list cmd) : Prop :=
@@ -48,39 +54,108 @@ Proof.
   apply IH; [exact F2|]. apply gr_ok_snoc; [exact G|]. destruct c; auto. exfalso. destruct F1 as (_&F1). apply (F1 req p). reflexivity.
 Qed.
 
-Definition nr_ok (cs : list cmd) : Prop := forall p, ~ In (CResume p) cs.
+(* every ResumeProcess in the queue finds its process sleeping (S), given what the earlier commands do *)
+Definition rs_next (c : cmd) (S : pid -> Prop) : pid -> Prop :=
+  fun q => match c with
+           | CResume p => q <> p /\ S q
+           | CStart p true => q = p \/ S q
+           | _ => S q
+           end.
+Fixpoint rs_ok (S : pid -> Prop) (cs : list cmd) : Prop :=
+  match cs with
+  | [] => True
+  | c :: rest => match c with CResume p => S p | _ => True end /\ rs_ok (rs_next c S) rest
+  end.
+
+Lemma rs_next_mono c (S S' : pid -> Prop) : (forall q, S q -> S' q) -> forall q, rs_next c S q -> rs_next c S' q.
+Proof.
+  intros M q. unfold rs_next. destruct c as [| |p0 sl| |p0| | | | |]; try apply M.
+  - destruct sl; [intros [A|A]; [left; exact A|right; apply M; exact A]|apply M].
+  - intros (A&B). split; [exact A|apply M; exact B].
+Qed.
+Lemma rs_ok_mono : forall cs (S S' : pid -> Prop), (forall q, S q -> S' q) -> rs_ok S cs -> rs_ok S' cs.
+Proof.
+  induction cs as [|c cs IH]; intros S S' M G; simpl in *; [exact I|]. destruct G as (G1&G2). split.
+  - destruct c; auto.
+  - apply (IH (rs_next c S)); [apply rs_next_mono; exact M|exact G2].
+Qed.
+Lemma rs_ok_snoc_plain : forall cs (S : pid -> Prop) c, (forall p, c <> CResume p) -> rs_ok S cs -> rs_ok S (cs ++ [c]).
+Proof.
+  induction cs as [|c0 cs IH]; intros S c Hc G; simpl.
+  - split; [|exact I]. destruct c; auto. exfalso. apply (Hc p). reflexivity.
+  - destruct G as (G1&G2). split; [exact G1|apply IH; assumption].
+Qed.
+Lemma rs_ok_app_plain : forall extra cs (S : pid -> Prop), Forall plain extra -> rs_ok S cs -> rs_ok S (cs ++ extra).
+Proof.
+  induction extra as [|c extra IH]; intros cs S F G; [rewrite app_nil_r; exact G|].
+  inversion F as [|x y F1 F2]; subst. replace (cs ++ c :: extra) with ((cs ++ [c]) ++ extra) by (rewrite <- app_assoc; reflexivity).
+  apply IH; [exact F2|]. apply rs_ok_snoc_plain; [apply F1|exact G].
+Qed.
+Lemma rs_ok_snoc_resume : forall cs (S : pid -> Prop) p,
+  rs_ok S cs -> (S p \/ In (CStart p true) cs) -> (forall c, In c cs -> c <> CResume p) -> rs_ok S (cs ++ [CResume p]).
+Proof.
+  induction cs as [|c0 cs IH]; intros S p G Hs Hn; simpl.
+  - split; [|exact I]. destruct Hs as [A|[]]. exact A.
+  - destruct G as (G1&G2). split; [exact G1|]. apply IH; [exact G2| |intros c Hc; apply Hn; right; exact Hc].
+    assert (N0: c0 <> CResume p) by (apply Hn; left; reflexivity).
+    destruct Hs as [A|[A|A]].
+    + left. unfold rs_next. destruct c0 as [| |p0 sl| |p0| | | | |]; try exact A.
+      * destruct sl; [right; exact A|exact A].
+      * split; [|exact A]. intros ->. apply N0. reflexivity.
+    + subst c0. left. simpl. left; reflexivity.
+    + right; exact A.
+Qed.
+
+(* what one handled command does to the sleeping processes *)
+Lemma rs_step c w w' ev :
+  (forall p, spawns c = Some p -> ~ has p w) -> handle_cmd c w = Good (w', ev) ->
+  forall q, rs_next c (fun x => sleeping x w) q -> sleeping q w'.
+Proof.
+  intros Hf H q Hq. unfold rs_next in Hq. destruct c as [| |p0 sl| |p0| | | | |];
+    try (apply (sleeping_handle_cmd q _ w w' ev Hf); [discriminate|exact H|exact Hq]).
+  - destruct sl.
+    + destruct Hq as [->|Hq]; [eapply start_sleeping; exact H|apply (sleeping_handle_cmd q _ w w' ev Hf); [discriminate|exact H|exact Hq]].
+    + apply (sleeping_handle_cmd q _ w w' ev Hf); [discriminate|exact H|exact Hq].
+  - destruct Hq as (Hne&Hq). apply (sleeping_handle_cmd q _ w w' ev Hf); [intros C; inversion C; subst; apply Hne; reflexivity|exact H|exact Hq].
+Qed.
+
 Definition rd_ok (e : env) (j : wid) (nd : node) : Prop :=
   forall p, alookup p (e_router e) = Some j -> has p (n_w nd) \/ In p (spawn_pids (n_cmd nd)).
 Definition c_node (e : env) (j : wid) (nd : node) : Prop :=
-  gr_ok (fun q => has q (n_w nd)) (n_cmd nd) /\ nr_ok (n_cmd nd) /\ rd_ok e j nd.
+  gr_ok (fun q => has q (n_w nd)) (n_cmd nd) /\ rs_ok (fun q => sleeping q (n_w nd)) (n_cmd nd) /\ rd_ok e j nd.
 Definition CInv (s : sys) : Prop := WF s /\ forall j nd, nth_error (s_nodes s) j = Some nd -> c_node (s_env s) j nd.
 
 (* ------------------------------------------------------------------ the commands of a Worker::step do not fail *)
-Lemma handle_cmds_no_fault : forall pre w rest,
-  gr_ok (fun q => has q w) (pre ++ rest) -> nr_ok (pre ++ rest) -> exists r, handle_cmds pre w = Good r.
+Lemma handle_cmds_no_fault e i : forall pre w rest,
+  NInv e i w (pre ++ rest) ->
+  gr_ok (fun q => has q w) (pre ++ rest) -> rs_ok (fun q => sleeping q w) (pre ++ rest) -> exists r, handle_cmds pre w = Good r.
 Proof.
-  induction pre as [|c pre IH]; intros w rest G N; simpl; [eexists; reflexivity|].
-  simpl in G. destruct G as (G1&G2).
+  induction pre as [|c pre IH]; intros w rest HI G R; simpl; [eexists; reflexivity|].
+  simpl in G, R. destruct G as (G1&G2). destruct R as (R1&R2).
+  assert (Fresh: forall p, spawns c = Some p -> ~ has p w).
+  { intros p Hp. destruct HI as (_&_&_&U). apply U. simpl. unfold spawn_pids. simpl. rewrite Hp. left; reflexivity. }
   assert (Hc: exists r, handle_cmd c w = Good r).
   { destruct (handle_cmd c w) as [r|f] eqn:E; [eexists; reflexivity|]. exfalso.
     destruct (handle_cmd_errs_only_on_client_commands c w f E) as [(p&->)|(r&p&->)].
-    - apply (N p). left; reflexivity.
+    - destruct R1 as (pr&v&Hl&Hr&Hp&_). simpl in E. rewrite Hl, Hr, Hp in E. discriminate.
     - simpl in E. unfold has in G1. destruct (alookup p (w_procs w)) as [pr|]; [|apply G1; reflexivity].
       destruct (p_res pr); discriminate. }
   destruct Hc as ([w1 e1]&E1). rewrite E1. cbn [rbind].
   destruct (handle_cmd_pk c w w1 e1 E1) as (PK&Sp&_).
-  destruct (IH w1 rest) as ([w2 e2]&E2).
+  assert (HI1: NInv e i w1 (pre ++ rest)).
+  { apply (NInv_handle_cmds e i [c] w (pre ++ rest) w1 (e1 ++ [])); [exact HI|]. simpl. rewrite E1. reflexivity. }
+  destruct (IH w1 rest HI1) as ([w2 e2]&E2).
   - eapply gr_ok_mono; [|exact G2]. intros q [A|A]; [apply PK; exact A|apply Sp; exact A].
-  - intros p Hin. apply (N p). right; exact Hin.
+  - eapply rs_ok_mono; [|exact R2]. apply (rs_step c w w1 e1 Fresh E1).
   - rewrite E2. cbn [rbind]. eexists; reflexivity.
 Qed.
 
 Lemma node_step_fault_oracle e i now k o nd f :
-  c_node e i nd -> node_step i now k o nd = Fault f -> is_oracle_fault f.
+  NInv e i (n_w nd) (n_cmd nd) -> c_node e i nd -> node_step i now k o nd = Fault f -> is_oracle_fault f.
 Proof.
-  intros (G&N&_) H. unfold node_step in H. pose proof (split_at_app k (n_cmd nd)) as Hs.
-  destruct (split_at k (n_cmd nd)) as [pre later]. simpl in Hs. rewrite <- Hs in G, N.
-  destruct (handle_cmds_no_fault pre (n_w nd) later G N) as ([w1 e1]&E1). rewrite E1 in H. cbn [rbind] in H.
+  intros HI (G&R&_) H. unfold node_step in H. pose proof (split_at_app k (n_cmd nd)) as Hs.
+  destruct (split_at k (n_cmd nd)) as [pre later]. simpl in Hs. rewrite <- Hs in G, R, HI.
+  destruct (handle_cmds_no_fault e i pre (n_w nd) later HI G R) as ([w1 e1]&E1). rewrite E1 in H. cbn [rbind] in H.
   destruct (exec_step i now o w1) as [[w2 e2]|f2] eqn:E2; cbn [rbind] in H.
   - destruct (check_completed (o_completed o) w2) as [[w3 e3]|f3] eqn:E3; cbn [rbind] in H; [discriminate|].
     inversion H; subst. eapply check_completed_fault; exact E3.
@@ -95,8 +170,7 @@ Lemma c_node_ext e e' j nd extra :
 Proof.
   intros (G&N&R) F Hr. split; [|split]; simpl.
   - apply gr_ok_app_plain; assumption.
-  - intros p Hin. apply in_app_or in Hin. destruct Hin as [Hin|Hin]; [apply (N p Hin)|].
-    rewrite Forall_forall in F. destruct (F _ Hin) as (F1&_). apply (F1 p). reflexivity.
+  - apply rs_ok_app_plain; assumption.
   - intros p Hp. simpl. rewrite spawn_pids_app. destruct (Hr p Hp) as [A|A].
     + destruct (R p A) as [B|B]; [left; exact B|right; apply in_or_app; left; exact B].
     + right. apply in_or_app. right; exact A.
@@ -106,7 +180,19 @@ Lemma plain_nospawn c :
   match c with CResume _ | CGetResult _ _ | CStart _ _ | CSpawn _ => False | _ => True end -> plain c /\ spawns c = None.
 Proof. destruct c; intros H; try contradiction; (split; [split; intros; discriminate|reflexivity]). Qed.
 
-Definition okc (c : client) : Prop := forall p, c <> XResume p.
+(* the premise on a client call: an honest resume_process *)
+Definition okc (s : sys) (c : client) : Prop :=
+  match c with
+  | XResume p =>
+    match alookup p (e_router (s_env s)) with
+    | Some w => match nth_error (s_nodes s) w with
+                | Some nd => (sleeping p (n_w nd) \/ In (CStart p true) (n_cmd nd)) /\ forall c0, In c0 (n_cmd nd) -> c0 <> CResume p
+                | None => True
+                end
+    | None => True
+    end
+  | _ => True
+  end.
 
 Theorem CInv_mstep s l s' : CInv s -> mstep s l s' -> hon_label2 (fun _ _ _ _ => True) okc s l -> CInv s'.
 Proof.
@@ -120,11 +206,14 @@ Proof.
   - (* command *)
     intros j x Hx. destruct (Nat.eq_dec j i) as [->|Hne]; [|rewrite nth_set_node_other in Hx by exact Hne; apply (N j x Hx)].
     rewrite (nth_set_node_same _ _ _ _ Hn) in Hx. inversion Hx; subst x; clear Hx.
-    destruct (N i nd Hn) as (G&Nr&R). unfold nr_ok, rd_ok in Nr, R. rewrite Hc in G, Nr, R. simpl in G. destruct G as (_&G2).
+    destruct (N i nd Hn) as (G&Nr&R). unfold rd_ok in R. rewrite Hc in G, Nr, R. simpl in G, Nr. destruct G as (_&G2). destruct Nr as (_&Nr2).
     destruct (handle_cmd_pk c (n_w nd) w' evs Hh) as (PK&Sp&_).
+    assert (Fresh: forall p, spawns c = Some p -> ~ has p (n_w nd)).
+    { intros p Hp. destruct W as (_&WN). simpl in WN. destruct (WN i nd Hn) as (_&_&_&U). apply U.
+      rewrite Hc. unfold spawn_pids. simpl. rewrite Hp. left; reflexivity. }
     split; [|split]; simpl.
     + eapply gr_ok_mono; [|exact G2]. intros q [A|A]; [apply PK; exact A|apply Sp; exact A].
-    + intros p Hin. apply (Nr p). right; exact Hin.
+    + eapply rs_ok_mono; [|exact Nr2]. apply (rs_step c (n_w nd) w' evs Fresh Hh).
     + intros p Hp. destruct (R p Hp) as [A|A]; [left; apply PK; exact A|].
       rewrite spawn_pids_cons in A. apply in_app_or in A. destruct A as [A|A]; [left|right; exact A].
       destruct (spawns c) as [x|] eqn:Es; [destruct A as [->|[]]; apply Sp; reflexivity|destruct A].
@@ -132,13 +221,16 @@ Proof.
     intros j x Hj. destruct (Nat.eq_dec j i) as [->|Hne]; [|rewrite nth_set_node_other in Hj by exact Hne; apply (N j x Hj)].
     rewrite (nth_set_node_same _ _ _ _ Hn) in Hj. inversion Hj; subst x; clear Hj.
     destruct (N i nd Hn) as (G&Nr&R). pose proof (pk_exec_step _ _ _ _ _ _ Hx) as PK.
-    split; [|split]; simpl; [eapply gr_ok_mono; [|exact G]; intros q A; apply PK; exact A|exact Nr|].
+    assert (HS: SW (n_w nd)) by (destruct W as (_&WN); simpl in WN; apply (WN i nd Hn)).
+    split; [|split]; simpl; [eapply gr_ok_mono; [|exact G]; intros q A; apply PK; exact A| |].
+    { eapply rs_ok_mono; [|exact Nr]. intros q A. eapply sleeping_exec_step; [exact HS|exact Hx|exact A]. }
     intros p Hp. destruct (R p Hp) as [A|A]; [left; apply PK; exact A|right; exact A].
   - (* check_completed *)
     intros j x Hj. destruct (Nat.eq_dec j i) as [->|Hne]; [|rewrite nth_set_node_other in Hj by exact Hne; apply (N j x Hj)].
     rewrite (nth_set_node_same _ _ _ _ Hn) in Hj. inversion Hj; subst x; clear Hj.
     destruct (N i nd Hn) as (G&Nr&R). pose proof (pk_check_completed _ _ _ _ Hk) as PK.
-    split; [|split]; simpl; [eapply gr_ok_mono; [|exact G]; intros q A; apply PK; exact A|exact Nr|].
+    split; [|split]; simpl; [eapply gr_ok_mono; [|exact G]; intros q A; apply PK; exact A| |].
+    { eapply rs_ok_mono; [|exact Nr]. intros q A. eapply sleeping_check_completed; [exact Hk|exact A]. }
     intros p Hp. destruct (R p Hp) as [A|A]; [left; apply PK; exact A|right; exact A].
   - (* event *)
     set (nsm := set_node i (mk_node (n_w nd) (n_cmd nd) rest) ns) in *.
@@ -216,23 +308,38 @@ Proof.
         inversion Hp; subst. rewrite Nat.eqb_refl in Ejw. discriminate.
     + inversion Hc; subst s'; simpl. apply Keep; [split; intros; discriminate|reflexivity].
     + inversion Hc; subst s'; simpl. apply Keep; [split; intros; discriminate|reflexivity].
-    + exfalso. apply (Hon p). reflexivity.
+    + (* resume_process, honestly *)
+      simpl in Hon. destruct (alookup p (e_router (s_env s))) as [w|] eqn:Er; inversion Hc; subst s'; clear Hc; simpl; [|exact N].
+      intros j x Hj. rewrite nth_error_push in Hj. destruct (nth_error (s_nodes s) j) as [x0|] eqn:E0; [|discriminate].
+      inversion Hj; subst x; clear Hj. destruct (j =? w) eqn:Ejw; [|apply (N j x0 E0)].
+      apply Nat.eqb_eq in Ejw. subst j. rewrite E0 in Hon. destruct Hon as (Hs&Hnr). destruct (N w x0 E0) as (G&Nr&R). split; [|split]; simpl.
+      * apply gr_ok_snoc; [exact G|exact I].
+      * apply rs_ok_snoc_resume; assumption.
+      * intros q Hq. simpl. rewrite spawn_pids_app. destruct (R q Hq) as [A|A]; [left; exact A|right; apply in_or_app; left; exact A].
     + destruct (alookup p (e_router (s_env s))) as [w|] eqn:Er; inversion Hc; subst s'; clear Hc; simpl; [|exact N].
       intros j x Hj. rewrite nth_error_push in Hj. destruct (nth_error (s_nodes s) j) as [x0|] eqn:E0; [|discriminate].
       inversion Hj; subst x; clear Hj. destruct (j =? w) eqn:Ejw; [|apply (N j x0 E0)].
       apply Nat.eqb_eq in Ejw. subst j. destruct (N w x0 E0) as (G&Nr&R). split; [|split]; simpl.
       * apply gr_ok_snoc; [exact G|]. apply (R p Er).
-      * intros q Hin. apply in_app_or in Hin. destruct Hin as [Hin|[C|[]]]; [apply (Nr q Hin)|discriminate].
+      * apply rs_ok_snoc_plain; [intros q C; discriminate|exact Nr].
       * intros q Hq. simpl. rewrite spawn_pids_app. destruct (R q Hq) as [A|A]; [left; exact A|right; apply in_or_app; left; exact A].
 Qed.
 
 Lemma CInv_init nw : CInv (init nw).
 Proof.
   split; [apply WF_init|]. intros j nd Hn. simpl in Hn. apply nth_error_In, repeat_spec in Hn. subst nd.
-  split; [exact I|]. split; [intros p []|intros p Hp; discriminate].
+  split; [exact I|]. split; [exact I|intros p Hp; discriminate].
 Qed.
 
-Definition no_resume (sigma : list sched_action) : Prop := clients_ok okc sigma.
+Definition resume_honest_run (s : sys) (sigma : list sched_action) : Prop := clients_ok okc s sigma.
+Definition no_resume (sigma : list sched_action) : Prop := Forall (fun a => forall p, a <> X (XResume p)) sigma.
+
+Lemma no_resume_honest : forall sigma s, no_resume sigma -> resume_honest_run s sigma.
+Proof.
+  induction sigma as [|a sigma IH]; intros s H; simpl; [exact I|]. inversion H as [|x y H1 H2]; subst. split.
+  - destruct a as [| | |c]; auto. destruct c; simpl; auto. exfalso. apply (H1 p). reflexivity.
+  - destruct (sys_step s a); [apply IH; exact H2|exact I].
+Qed.
 
 Lemma hon_run_true : forall sigma s, hon_run (fun _ _ _ _ => True) s sigma.
 Proof.
@@ -241,13 +348,13 @@ Proof.
   - destruct (sys_step s a); [apply IH|exact I].
 Qed.
 
-(* C15: the only Faults of a run whose oracle names allocated pids and whose client never calls
-   resume_process are BadOracle: no Worker::step and no Environment::step returns Err *)
+(* C15: the only Faults of a run whose oracle names allocated pids and whose client resumes only
+   honestly are BadOracle: no Worker::step and no Environment::step returns Err *)
 Lemma faults_only_bad_oracle : forall sigma s f,
-  CInv s -> RInv s -> pid_honest_run s sigma = true -> no_resume sigma -> run s sigma = Fault f -> is_oracle_fault f.
+  CInv s -> RInv s -> pid_honest_run s sigma = true -> resume_honest_run s sigma -> run s sigma = Fault f -> is_oracle_fault f.
 Proof.
   induction sigma as [|a sigma IH]; intros s f HC HR Hh Hn H; simpl in *; [discriminate|].
-  apply andb_true_iff in Hh. destruct Hh as (Ha&Ht). inversion Hn as [|x y N1 N2]; subst.
+  apply andb_true_iff in Hh. destruct Hh as (Ha&Ht). destruct Hn as (N1&N2).
   destruct (sys_step s a) as [s1|f1] eqn:Est; cbn [rbind] in H.
   - apply (IH s1 f); [| |exact Ht|exact N2|exact H].
     + eapply (step_inv2 CInv (fun _ _ _ _ => True) okc CInv_mstep); [exact HC| |exact N1|exact Est].
@@ -257,15 +364,19 @@ Proof.
   - inversion H; subst f1. destruct a as [i k o|ks|d|c].
     + simpl in Est. destruct (nth_error (s_nodes s) i) as [nd|] eqn:Ei; [|discriminate].
       destruct (node_step i (s_clock s) k o nd) as [nd'|f2] eqn:Es; cbn [rbind] in Est; [discriminate|]. inversion Est; subst f2.
-      destruct HC as (_&NC). eapply node_step_fault_oracle; [apply (NC i nd Ei)|exact Es].
+      destruct HC as ((_&WN)&NC). eapply node_step_fault_oracle; [apply (WN i nd Ei)|apply (NC i nd Ei)|exact Es].
     + exfalso. apply (step_errs_only s (E ks) f Est). apply RInv_events_routed. exact HR.
     + exfalso. apply (step_errs_only s (T d) f Est).
     + exfalso. apply (step_errs_only s (X c) f Est).
 Qed.
 
+Theorem step_faults_only_bad_oracle_resume : forall nw sigma f,
+  pid_honest_run (init nw) sigma = true -> resume_honest_run (init nw) sigma -> run (init nw) sigma = Fault f -> is_oracle_fault f.
+Proof. intros nw sigma f Hh Hn H. eapply faults_only_bad_oracle; [apply CInv_init|apply RInv_init|exact Hh|exact Hn|exact H]. Qed.
+
 Theorem step_faults_only_bad_oracle : forall nw sigma f,
   pid_honest_run (init nw) sigma = true -> no_resume sigma -> run (init nw) sigma = Fault f -> is_oracle_fault f.
-Proof. intros nw sigma f Hh Hn H. eapply faults_only_bad_oracle; [apply CInv_init|apply RInv_init|exact Hh|exact Hn|exact H]. Qed.
+Proof. intros nw sigma f Hh Hn. apply step_faults_only_bad_oracle_resume; [exact Hh|apply no_resume_honest; exact Hn]. Qed.
 
 (* non-vacuity: the routed schedule of ProtoRouted with a request_result issued BEFORE the target's
    Spawn command is handled and one after it has finished *)
@@ -282,6 +393,6 @@ Example step_faults_only_bad_oracle_applies :
   exists s, run (init 2) getresult_schedule = Good s.
 Proof.
   split; [vm_compute; reflexivity|]. split.
-  - unfold no_resume, clients_ok, getresult_schedule. repeat constructor; intros p C; discriminate.
+  - unfold no_resume, getresult_schedule. repeat constructor; intros p C; discriminate.
   - vm_compute. eexists; reflexivity.
 Qed.
